@@ -80,6 +80,10 @@ struct trie_node *trie_lookup(const struct trie_node *root, const struct lrtr_ip
 								lrtr_ip_addr_get_bits(prefix, 0, root->len)))
 			return (struct trie_node *)root;
 
+		/* nothing below this node; a node at maximum depth has no further address bit to branch on */
+		if (trie_is_leaf(root))
+			return NULL;
+
 		if (is_left_child(prefix, *lvl))
 			root = root->lchild;
 		else
